@@ -157,6 +157,20 @@ func genCursorCase(r *rand.Rand, cfg Cfg) Case {
 	nc := 0
 	for i := 0; i < 2+r.Intn(4); i++ {
 		ops = append(ops, fmt.Sprintf("cur 0 %d", nc))
+		if r.Intn(4) == 0 {
+			// the tree goes on changing after the cursor was opened: the cursor walks the entries the
+			// tree held when Cursor() was called (also when it was empty then)
+			for j := 0; j < 1+r.Intn(4); j++ {
+				k := pick(r, uni)
+				if v, ok := live[k]; ok && r.Intn(2) == 0 {
+					ops = append(ops, opDel(0, k, v))
+					delete(live, k)
+				} else {
+					live[k] = uint64(3 + r.Intn(3))
+					ops = append(ops, opIns(0, k, live[k]))
+				}
+			}
+		}
 		switch r.Intn(3) {
 		case 0:
 			ops = append(ops, fmt.Sprintf("cmin %d", nc))
@@ -187,7 +201,7 @@ func genCursorCase(r *rand.Rand, cfg Cfg) Case {
 }
 
 func famCursor(f *FamCtx) {
-	f.Report.Rule = "sparse multi-level trees (random subset of a layered universe, some deleted again, also empty and emptied trees; in memory, persisted, or reloaded); cursors placed by Min, Max or Ceil(probe present/absent of any layer) and walked up to 50 steps with direction changes; SeekIter from probes, with and without a stopping callback; every position compared with the model's literal cursor functions and with an index into the sorted Go map; non-trivial = reached height >= 1 and changed height"
+	f.Report.Rule = "sparse multi-level trees (random subset of a layered universe, some deleted again, also empty and emptied trees; in memory, persisted, or reloaded); cursors (one in four kept while the tree is modified further) placed by Min, Max or Ceil(probe present/absent of any layer) and walked up to 50 steps with direction changes; SeekIter from probes, with and without a stopping callback; every position compared with the model's literal cursor functions and with an index into the sorted Go map; non-trivial = reached height >= 1 and changed height"
 	f.Gen = func() Case { return genCursorCase(f.Rand, RandCfg(f.Rand)) }
 	n := f.N(250, 10000)
 	for i := 0; i < n; i++ {
